@@ -125,6 +125,17 @@ def handle : Handler
     let sn ← decList snap
     pure (encL (keys (ctxLocals (d.map fun k => (k, Val.undefined)) (sn.map fun k => (k, Val.undefined)))))
   | "registry" :: ops => runRegistry ops
+  | "codehist" :: src :: mf :: ops => do
+    -- `codehist <module_source|none> <module_filename|none> (w:<path>:<content> | q)*` : answers of every `q`
+    let r : CodeRef := ⟨← decOpt src, ← decOpt mf⟩
+    let mut fs : FS := []
+    let mut out : List String := []
+    for op in ops do
+      match op.splitOn ":" with
+      | ["w", p, c] => fs := applyWrites fs [(← decStr p, ← decStr c)]
+      | ["q"] => out := out ++ [match r.code fs with | some c => encStr c | none => "none"]
+      | _ => none
+    pure (if out.isEmpty then "[]" else " ".intercalate out)
   | ["listdefs", attrs] => do pure (encL (listDefs (← decList attrs)))
   | ["hasdef", attrs, n] => do pure (encBool (hasDef (← decList attrs) (← decStr n)))
   | ["header", enc, nfut, nimp, magic] => do
